@@ -1,5 +1,7 @@
 package main
 
+import "time"
+
 // Harness intrinsics for package main of the simulation (intercepted by the symbolic executor;
 // a counterexample of C17 is replayed by running the real simulation binary, see replay.go).
 func vBool(tag string) bool    { return false }
@@ -7,3 +9,5 @@ func vU32(tag string) uint32   { return 0 }
 func vAssume(c bool)           {}
 func vAssert(id string, c bool) {}
 func vCover(id string)         {}
+
+func vSelectedOn(c <-chan time.Time) bool { return true }
